@@ -52,6 +52,21 @@ def co_marker_scenarios(sid, own, kind, typ, sets_for, aux=None, sibs=None):
         per = [sets_for(f["names"][0]) for f in fs]
         n = max(len(v) for v in per)
         structs.append(struct("Tl%d" % j, fs, [case([v[(j2 + i) % len(v)] for i, v in enumerate(per)]) for j2 in range(n)], gendoc=["//govalid:" + sb]))
+    # the SAME marker on the struct declaration with another parameter: both rules govern the field, each with its own N
+    import re as _re
+    for j, o in enumerate(own):
+        m = _re.fullmatch(r"(\w+)=(\d+)", o)
+        if not m:
+            continue
+        for dn, d in enumerate((2, -1)):
+            n2 = int(m.group(2)) + d
+            if n2 < 0:
+                continue
+            fs = [fld("Own", ["//govalid:" + o], typ), fld("Plain", [], typ), fld("Late", ["//govalid:" + o], typ)]
+            per = [sets_for(f["names"][0]) for f in fs]
+            n = max(len(v) for v in per)
+            structs.append(struct("Sm%d_%d" % (j, dn), fs, [case([v[(j2 + i) % len(v)] for i, v in enumerate(per)]) for j2 in range(n)],
+                                  gendoc=["//govalid:%s=%d" % (m.group(1), n2)]))
     return scenario(sid, structs, aux=aux or [])
 
 
@@ -351,6 +366,11 @@ def c05(seed, tier):
         # every blank of unicode.IsSpace next to a separating comma is trimmed, not only space and tab
         "red,\u00a0green,blue", "low,\u3000mid\u3000,high", "north\x0b,south", "p\u0085,\u2003q\u2009,\u2028r,s\u205f,\u1680t\u202f",
         "u\x0c,\x0cv", "in\u00a0ner,w\u3000x",
+        # all 25 runes of unicode.IsSpace around items; runes that look blank but are not (zero-width space, word joiner, soft
+        # hyphen, Mongolian vowel separator, the C0 separators 0x1c-0x1f, braille blank) stay part of the item
+        ",".join(b + "i%d" % k + b for k, b in enumerate(["\t", "\x0b", "\x0c", " ", "\u0085", "\u00a0", "\u1680", "\u2000", "\u2001", "\u2002", "\u2003", "\u2004",
+                                                        "\u2005", "\u2006", "\u2007", "\u2008", "\u2009", "\u200a", "\u2028", "\u2029", "\u202f", "\u205f", "\u3000"])),
+        ",".join(b + "n%d" % k + b for k, b in enumerate(["\u200b", "\u2060", "\u00ad", "\u180e", "\x1c", "\x1f", "\u2800", "\u200c", "\u00a0\u200b", "\u200b\u00a0", "\x01", "\x7f"])),
     ]
     fields = []
     values = {}
@@ -482,10 +502,17 @@ def c06(seed, tier):
     hosts = struct("Hosts", [fld("Up", [], nested=[fld("Link", [], nested=[fld("X" + m, ["//govalid:" + m], st) for m in markers])]),
                              fld("UpLink", [], nested=[fld("X" + m, ["//govalid:" + m], st) for m in markers])],
                    [case([set_str(pre + "X" + m, strs[m][(k + off) % len(strs[m])]) for m in markers for pre, off in (("Up.Link.", 0), ("UpLink.", 3))]) for k in range(12)])
+    # an inline struct declared with several names, the format marker written on the declaration (the generator applies it to the
+    # members of every name; their Path is the open finding D7 and the specification has no entry for them, so the oracle is the
+    # directly marked top-level field Ref* holding the same value: per marker, as many entries from the members as from Ref*)
+    route = struct("Route", [fld(["Src" + m, "Dst" + m, "Via" + m], ["//govalid:" + m], nested=[fld("Addr", [], st)]) for m in markers] +
+                   [fld(nm + m, ["//govalid:" + m], st) for m in markers for nm in ("RefA", "RefB", "RefC")],
+                   [case([s_ for m in markers for nm, ref, off in (("Src", "RefA", 0), ("Dst", "RefB", 2), ("Via", "RefC", 5))
+                          for s_ in (set_str(nm + m + ".Addr", strs[m][(k + off) % len(strs[m])]), set_str(ref + m, strs[m][(k + off) % len(strs[m])]))]) for k in range(16)])
     covals = [b"", b"a", b"ab", b"abc", b"1.2.3.4", b"12", b"::1", b"a@b.c", b"http://a.b", b"550e8400-e29b-41d4-a716-446655440000", b"abcde"]
     co = co_marker_scenarios("c06co", markers, "string", st, lambda p: [set_str(p, v) for v in covals],
                              sibs=["required", "minlength=2", "enum=ab,abc,1.2.3.4", "numeric"])
-    return {"scenarios": [scenario("c06", [struct("T", fields, cases)], aux=[a_alias]), co], "hosts": {"scenarios": [scenario("c06hosts", [hosts])]}}
+    return {"scenarios": [scenario("c06", [struct("T", fields, cases)], aux=[a_alias]), co], "hosts": {"scenarios": [scenario("c06hosts", [hosts])]}, "route": {"scenarios": [scenario("c06route", [route])]}}
 
 
 # ----------------------------------------------------------------------------- random structs (C07, C08, C09, C15-C17, C19)
